@@ -216,6 +216,23 @@ int iv_map_set_offset(int m, const float* off, int len)
     return 0;
     CATCH(-1)
 }
+// a long history of small updates on ONE map: K calls of swapOffset along the straight line from 'from' to 'to'
+// (the last call installs 'to' exactly)
+int iv_map_ramp_offset(int m, const float* from, const float* to, int len, int K)
+{
+    TRY
+    auto k = std::dynamic_pointer_cast<KickMap>(g_map.at(m));
+    if (!k) { g_err = "not a KickMap"; return -1; }
+    std::vector<meshaxis_t> v(len);
+    for (int i = 1; i <= K; i++) {
+        v.resize(len);
+        if (i == K) { for (int j = 0; j < len; j++) v[j] = to[j]; }
+        else { for (int j = 0; j < len; j++) v[j] = from[j] + (to[j] - from[j]) * (static_cast<float>(i) / K); }
+        k->swapOffset(v);
+    }
+    return 0;
+    CATCH(-1)
+}
 int iv_map_force(int m, float* out, int len)
 {
     TRY
